@@ -44,6 +44,9 @@ pub enum IdEdit {
     /// the last routing hop of a transaction dropped (hops are signed one by one, the path as a
     /// whole is not covered by the transaction hash)
     DropLastHop(u16),
+    /// every transaction removed, or only the first k kept (header untouched: the header-only form
+    /// of the block, and truncations of its transaction list)
+    Truncate(u16),
     /// control: no edit at all (must be accepted)
     Identity,
 }
@@ -126,6 +129,14 @@ fn apply(orig: &Block, e: &IdEdit) -> Option<(Block, bool, bool)> {
                 return None;
             }
             b.transactions.remove(pick(*s, n));
+        }
+        IdEdit::Truncate(k) => {
+            if n == 0 {
+                return None;
+            }
+            // k = 0 (every third case): nothing kept
+            let keep = if *k % 3 == 0 { 0 } else { pick(*k, n) };
+            b.transactions.truncate(keep);
         }
         IdEdit::DupTx(s) => {
             if n == 0 {
@@ -473,6 +484,7 @@ fn eval(c: &mut Ctx, case: &Case, counting: bool) -> Vec<(String, String)> {
 pub fn arb_edit() -> impl Strategy<Value = IdEdit> {
     prop_oneof![
         any::<u16>().prop_map(IdEdit::RemoveTx),
+        any::<u16>().prop_map(IdEdit::Truncate),
         any::<u16>().prop_map(IdEdit::DupTx),
         (any::<u16>(), any::<u16>()).prop_map(|(a, b)| IdEdit::SwapTx(a, b)),
         Just(IdEdit::AddTx),
